@@ -32,3 +32,23 @@ Theorem C14_children_iter_agree : forall (P: Type) (v: value P),
   option_map (map snd) (children P v) = iter P v.
 Proof. exact children_iter_agree. Qed.
 Print Assumptions C14_children_iter_agree.
+
+(* NodeVisitor: the per-instance method cache is transparent (for every AST, every set of visit_X methods and every
+   cache whose entries were produced by this visitor class, visit() yields exactly the events of the cache-free
+   traversal), a visit_X method intercepts exactly the nodes of class X, and the generic traversal reaches every
+   reachable node exactly once, in pre-order *)
+From PV Require Import VisitProofs.
+Theorem C14_visit_cache_transparent : forall (P: Type) handler_of f m (v: value P) ev m', cache_ok handler_of m ->
+  visit P handler_of f m v = Some (ev, m') -> spec_visit P handler_of f v = Some ev /\ cache_ok handler_of m'.
+Proof. exact visit_cache_transparent. Qed.
+Print Assumptions C14_visit_cache_transparent.
+
+Theorem C14_intercept_exactly : forall (P: Type) handler_of f (v: value P) ev, spec_visit P handler_of f v = Some ev ->
+  Forall (fun e => snd e = match handler_of (fst e) with H_generic => false | _ => true end) ev.
+Proof. exact intercept_exactly. Qed.
+Print Assumptions C14_intercept_exactly.
+
+Theorem C14_generic_visit_is_preorder : forall (P: Type) f (v: value P),
+  spec_visit P (fun _ => H_generic) f v = option_map (map (fun c => (c, false))) (preorder P f v).
+Proof. exact generic_visit_is_preorder. Qed.
+Print Assumptions C14_generic_visit_is_preorder.
